@@ -1,6 +1,7 @@
 import PgFdr.Proofs.C18
 import PgFdr.Proofs.PipelineC18
 import PgFdr.Proofs.Cli
+import PgFdr.Proofs.PipelineComplete
 
 /-!
 # C18 — every shipped method configuration is usable from the command line
@@ -1371,5 +1372,306 @@ example : cliRun { demoMapRun with pepMapFiles := none } = .error Err.missingFas
   have hm : pepMaps demoMapRun.fasta none demoMapRun.containsDecoys demoMapRun.geneLevel demoMapRun.useUniprot
       demoMapRun.dig false = .error Err.missingFasta.tag := by decide +kernel
   rw [hm]
+
+end PgFdr.C18
+
+/-! ## Completion of the inference call: when does a shipped method, on valid input of its type, write its table?
+
+`cli_every_shipped_method_runs` leaves one way open in which a run that got through every configuration check does
+not write its table: "the inference call fails on the data".  `Proofs/PipelineComplete.lean` characterises the
+failures of the composed model `Pipeline.run` exactly:
+
+* `Pipeline.run_error_tags`, `Pipeline.run_error_data_or_misfit`: the call fails only with one of four DATA errors
+  (`unknown_protein` / `razor_no_proteins`, `no_ranked_groups`, `no_rows` — the real tool ends with an exception at
+  the mirrored line) or with one of five PROTOCOL errors, and a protocol error means that the RECORDED parameters of
+  the replay (float scores, shuffles, rescue cutoff, cut map) do not fit the run — the real tool has no such failure;
+* with fitting records, a single-pass call completes iff every peptide maps to a protein and some non-contaminant
+  group has evidence (`Pipeline.run_single_pass_ok_iff`), a two-pass call iff moreover the first pass ranks a group
+  that is not placeholder-named and some non-contaminant group has evidence in the second pass
+  (`Pipeline.run_rescue_ok_iff`); otherwise it ends with the named data error (`…_error_iff`).
+
+The theorems below carry this over to the command line. -/
+namespace PgFdr.C18
+open PgFdr.Cli
+open PgFdr.Generated (MethodToml)
+
+/-- the table the command line writes for the one method `name` of a run whose inference call returns `r` -/
+def tableOf (name : String) (op : OutPath) (ann : C19.Dict) (pil : List PepInfo) (r : Pipeline.Result) : CliTable :=
+  { method := name, file := op.stem ++ op.suffix, dir := op.dir, pil := pil, run := r, rows := r.rows,
+    records := tableHeader :: r.rows.map (fun d => (cliRow ann d).toList) }
+
+/-- "running it from the command line on valid input of the matching type completes and writes a protein-group
+    table": for every shipped method `m`, on a command line as in `cli_every_shipped_method_runs` (the method alone,
+    `--protein_groups_out`, files of the method's own kind, annotations that read, maps that build), the run IS the
+    method's inference call `Pipeline.run pc pin` on the ingested peptide list `pin.pil` (a dict) with the thresholds
+    of the command line and the method's recorded parameters: it ends with error `e` exactly when the call does, and
+    writes exactly one table — `tableOf …`, holding the call's rows — exactly when the call completes. -/
+theorem cli_shipped_method_is_inference_call :
+    ∀ m ∈ Generated.methods,
+      ∀ (inp : CliInput) (op : OutPath) (ann : C19.Dict) (usePseudo : Bool),
+        inp.methods = [m.name] → inp.out = some op → (supplied inp).has (kindOf m) = true →
+        C19.getAnnotations inp.fasta inp.containsDecoys inp.geneLevel inp.useUniprot = .ok (ann, usePseudo) →
+        ∃ (cfg : Cfg) (pc : Pipeline.Config),
+          parseMethod usePseudo m = .ok cfg ∧ toPipelineConfig cfg = some pc ∧
+          ∀ (maps : List C10.DMap) (pin : Pipeline.Input),
+            (cfg.needsMap = true →
+              pepMaps inp.fasta inp.pepMapFiles inp.containsDecoys inp.geneLevel inp.useUniprot inp.dig usePseudo = .ok maps) →
+            pin = pipelineInput inp (ingest inp maps cfg) (inp.recs.getD 0 default) →
+            Pipeline.distinctPeptides pin.pil ∧
+            (∀ e, cliRun inp = .error e ↔ Pipeline.run pc pin = .error e) ∧
+            (∀ r, Pipeline.run pc pin = .ok r → cliRun inp = .ok [tableOf m.name op ann pin.pil r]) ∧
+            ((∃ t, cliRun inp = .ok [t]) ↔ ∃ r, Pipeline.run pc pin = .ok r) := by
+  intro m hm inp op ann u hmeth hout hhas ha
+  obtain ⟨kind, hk, H⟩ := cli_every_shipped_method_runs m hm
+  subst hk
+  obtain ⟨cfg, pc, hp, -, -, -, hpc, -, -, hrun⟩ := H inp op ann u hmeth hout hhas ha
+  refine ⟨cfg, pc, hp, hpc, ?_⟩
+  intro maps pin hmaps hpin
+  obtain ⟨herr, hok⟩ := hrun maps hmaps
+  rw [← hpin] at herr hok
+  have hd : Pipeline.distinctPeptides pin.pil := by rw [hpin]; exact ingest_distinct inp maps cfg
+  have hpil : pin.pil = ingest inp maps cfg := by rw [hpin]; rfl
+  have hok' : ∀ r, Pipeline.run pc pin = .ok r → cliRun inp = .ok [tableOf m.name op ann pin.pil r] := by
+    intro r hr; rw [hpil]; exact hok r hr
+  refine ⟨hd, ?_, hok', ?_⟩
+  · intro e
+    constructor
+    · intro he
+      cases hr : Pipeline.run pc pin with
+      | error e' => have := herr e' hr; rw [he] at this; rw [Except.error.inj this]
+      | ok r => have := hok' r hr; rw [he] at this; cases this
+    · exact herr e
+  · constructor
+    · rintro ⟨t, ht⟩
+      cases hr : Pipeline.run pc pin with
+      | error e' => have := herr e' hr; rw [ht] at this; cases this
+      | ok r => exact ⟨r, rfl⟩
+    · rintro ⟨r, hr⟩; exact ⟨_, hok' r hr⟩
+
+/-- "For every method configuration shipped with the tool and selectable by name, running it from the command line
+    on valid input of the matching type completes and writes a protein-group table …" — for the shipped methods
+    WITHOUT a rescue step (`pc.grouping ≠ .rescuedSubset`): on a command line as in `cli_every_shipped_method_runs`
+    whose recorded parameters fit the run (`Pipeline.Fits1`: one float score per first-pass group, the two recorded
+    shuffles are permutations of the right lengths; `Pipeline.NoSentinel1`: no group with evidence was scored with
+    the sentinel `-100.0`), the run completes with exactly one table IF AND ONLY IF the ingested peptide list is
+    valid input for the inference: every peptide maps to at least one protein (`HasProteins`) and some
+    non-contaminant group of the method's grouping has evidence (`Rankable1`; for a discard method: some peptide's
+    proteins all lie in one non-contaminant group, `Pipeline.rankable1_discard_iff`).  The table is then the one of
+    the single pass `run_spec` describes.  Otherwise the run ends with the named data error, and with no other:
+    `unknown_protein` (`razor_no_proteins` for a razor method) iff some peptide maps to no protein,
+    `no_ranked_groups` iff all peptides map to proteins but no non-contaminant group has evidence. -/
+theorem cli_shipped_single_pass_completes_iff :
+    ∀ m ∈ Generated.methods,
+      ∀ (inp : CliInput) (op : OutPath) (ann : C19.Dict) (usePseudo : Bool),
+        inp.methods = [m.name] → inp.out = some op → (supplied inp).has (kindOf m) = true →
+        C19.getAnnotations inp.fasta inp.containsDecoys inp.geneLevel inp.useUniprot = .ok (ann, usePseudo) →
+        ∃ (cfg : Cfg) (pc : Pipeline.Config),
+          parseMethod usePseudo m = .ok cfg ∧ toPipelineConfig cfg = some pc ∧
+          ∀ (maps : List C10.DMap) (pin : Pipeline.Input),
+            (cfg.needsMap = true →
+              pepMaps inp.fasta inp.pepMapFiles inp.containsDecoys inp.geneLevel inp.useUniprot inp.dig usePseudo = .ok maps) →
+            pin = pipelineInput inp (ingest inp maps cfg) (inp.recs.getD 0 default) →
+            pc.grouping ≠ .rescuedSubset → Pipeline.Fits1 pc pin → Pipeline.NoSentinel1 pc pin →
+            ((∃ t, cliRun inp = .ok [t]) ↔ Pipeline.HasProteins pin.pil ∧ Pipeline.Rankable1 pc pin) ∧
+            (Pipeline.HasProteins pin.pil → Pipeline.Rankable1 pc pin →
+              ∃ r, Pipeline.run pc pin = .ok r ∧ Pipeline.RunSpec pc pin r ∧ r.pass2 = none ∧
+                cliRun inp = .ok [tableOf m.name op ann pin.pil r]) ∧
+            (∀ e, cliRun inp = .error e ↔
+              (e = Pipeline.noProteinsTag pc ∧ ¬ Pipeline.HasProteins pin.pil) ∨
+              (e = "no_ranked_groups" ∧ Pipeline.HasProteins pin.pil ∧ ¬ Pipeline.Rankable1 pc pin)) := by
+  intro m hm inp op ann u hmeth hout hhas ha
+  obtain ⟨cfg, pc, hp, hpc, H⟩ := cli_shipped_method_is_inference_call m hm inp op ann u hmeth hout hhas ha
+  refine ⟨cfg, pc, hp, hpc, ?_⟩
+  intro maps pin hmaps hpin hg hfit hsent
+  obtain ⟨hd, herr, hok, hiff⟩ := H maps pin hmaps hpin
+  refine ⟨hiff.trans (Pipeline.run_single_pass_ok_iff pc pin hg hd hfit hsent), ?_, ?_⟩
+  · intro h1 h2
+    obtain ⟨r, hr⟩ := (Pipeline.run_single_pass_ok_iff pc pin hg hd hfit hsent).mpr ⟨h1, h2⟩
+    have hspec := Pipeline.run_spec pc pin r hr
+    rcases hspec.cases with ⟨-, h2', -⟩ | ⟨hgr, -⟩
+    · exact ⟨r, hr, hspec, h2', hok r hr⟩
+    · exact absurd hgr hg
+  · intro e
+    exact (herr e).trans (Pipeline.run_single_pass_error_iff pc pin hg hd hfit hsent e)
+
+/-- "… running it from the command line on valid input of the matching type completes and writes a protein-group
+    table …" — for the shipped methods WITH a rescue step (`pc.grouping = .rescuedSubset`, the flagship
+    `picked_protein_group` family): on a command line as in `cli_every_shipped_method_runs` whose recorded
+    parameters fit the run — first pass (`Fits1`, `NoSentinel1`), a recorded rescue cutoff `c`, a recorded cut map
+    that answers the rescue stage (`Pipeline.rescueOut pc pin c = .ok out`), second pass (`Fits2`, `NoSentinel2`) —
+    the run completes with exactly one table IF AND ONLY IF every peptide maps to a protein, some non-contaminant
+    first-pass group has evidence, the first pass ranks some group that is not `OBSOLETE__`-named (its table is not
+    empty), and some non-contaminant group handed to the second competition has evidence.  The table is then the one
+    of the rescue pass on `out`.  Otherwise the run ends with the named data error, and with no other:
+    the no-proteins error, `no_ranked_groups` (first or second pass), or `no_rows` (empty first table). -/
+theorem cli_shipped_rescue_completes_iff :
+    ∀ m ∈ Generated.methods,
+      ∀ (inp : CliInput) (op : OutPath) (ann : C19.Dict) (usePseudo : Bool),
+        inp.methods = [m.name] → inp.out = some op → (supplied inp).has (kindOf m) = true →
+        C19.getAnnotations inp.fasta inp.containsDecoys inp.geneLevel inp.useUniprot = .ok (ann, usePseudo) →
+        ∃ (cfg : Cfg) (pc : Pipeline.Config),
+          parseMethod usePseudo m = .ok cfg ∧ toPipelineConfig cfg = some pc ∧
+          ∀ (maps : List C10.DMap) (pin : Pipeline.Input) (c : Rat) (out : C04.RescueOut (List Evidence)),
+            (cfg.needsMap = true →
+              pepMaps inp.fasta inp.pepMapFiles inp.containsDecoys inp.geneLevel inp.useUniprot inp.dig usePseudo = .ok maps) →
+            pin = pipelineInput inp (ingest inp maps cfg) (inp.recs.getD 0 default) →
+            pc.grouping = .rescuedSubset → Pipeline.Fits1 pc pin → Pipeline.NoSentinel1 pc pin →
+            pin.rescueCutoff = some c → Pipeline.rescueOut pc pin c = .ok out →
+            Pipeline.Fits2 pc pin out → Pipeline.NoSentinel2 pc pin out →
+            ((∃ t, cliRun inp = .ok [t]) ↔
+              Pipeline.HasProteins pin.pil ∧ Pipeline.Rankable1 pc pin ∧ ¬ Pipeline.NoRows1 pc pin ∧
+                Pipeline.Rankable2 pc pin out) ∧
+            (Pipeline.HasProteins pin.pil → Pipeline.Rankable1 pc pin → ¬ Pipeline.NoRows1 pc pin →
+              Pipeline.Rankable2 pc pin out →
+              ∃ r, Pipeline.run pc pin = .ok r ∧ Pipeline.RunSpec pc pin r ∧ r.rescue = some out ∧
+                r.pass2.isSome = true ∧ cliRun inp = .ok [tableOf m.name op ann pin.pil r]) ∧
+            (∀ e, cliRun inp = .error e ↔
+              (e = Pipeline.noProteinsTag pc ∧ ¬ Pipeline.HasProteins pin.pil) ∨
+              (e = "no_ranked_groups" ∧ Pipeline.HasProteins pin.pil ∧
+                (¬ Pipeline.Rankable1 pc pin ∨
+                  (Pipeline.Rankable1 pc pin ∧ ¬ Pipeline.NoRows1 pc pin ∧ ¬ Pipeline.Rankable2 pc pin out))) ∨
+              (e = "no_rows" ∧ Pipeline.HasProteins pin.pil ∧ Pipeline.Rankable1 pc pin ∧ Pipeline.NoRows1 pc pin)) := by
+  intro m hm inp op ann u hmeth hout hhas ha
+  obtain ⟨cfg, pc, hp, hpc, H⟩ := cli_shipped_method_is_inference_call m hm inp op ann u hmeth hout hhas ha
+  refine ⟨cfg, pc, hp, hpc, ?_⟩
+  intro maps pin c out hmaps hpin hg hfit hsent hc hout' hfit2 hsent2
+  obtain ⟨hd, herr, hok, hiff⟩ := H maps pin hmaps hpin
+  have hokiff := Pipeline.run_rescue_ok_iff pc pin hg hd hfit hsent c hc out hout' hfit2 hsent2
+  refine ⟨hiff.trans hokiff, ?_, ?_⟩
+  · intro h1 h2 h3 h4
+    obtain ⟨r, hr⟩ := hokiff.mpr ⟨h1, h2, h3, h4⟩
+    have hspec := Pipeline.run_spec pc pin r hr
+    obtain ⟨c', out', hc', ho', -, hresc⟩ := Pipeline.fits2_of_run_ok pc pin r hr hg
+    rw [hc] at hc'
+    obtain rfl := Option.some.inj hc'
+    rw [hout'] at ho'
+    obtain rfl := Except.ok.inj ho'
+    rcases hspec.cases with ⟨hne, -⟩ | ⟨-, p2, -, -, -, h2', -⟩
+    · exact absurd hg hne
+    · exact ⟨r, hr, hspec, hresc, by rw [h2']; rfl, hok r hr⟩
+  · intro e
+    exact (herr e).trans (Pipeline.run_rescue_error_iff pc pin hg hd hfit hsent c hc out hout' hfit2 hsent2 e)
+
+/-- "… completes and writes a protein-group table": the converse bound, for EVERY shipped method and whatever the
+    data and the records — if a run as in `cli_every_shipped_method_runs` fails in the inference call, the error is one
+    of the four data errors (`unknown_protein`, `razor_no_proteins`, `no_ranked_groups`, `no_rows`), or the recorded
+    parameters of the replay do not fit the run: the first-pass records (`¬ Fits1`), or — rescue methods — a missing
+    rescue cutoff, a cut map that does not answer the rescue stage, second-pass records that do not fit. -/
+theorem cli_shipped_failure_is_data_or_misfit :
+    ∀ m ∈ Generated.methods,
+      ∀ (inp : CliInput) (op : OutPath) (ann : C19.Dict) (usePseudo : Bool),
+        inp.methods = [m.name] → inp.out = some op → (supplied inp).has (kindOf m) = true →
+        C19.getAnnotations inp.fasta inp.containsDecoys inp.geneLevel inp.useUniprot = .ok (ann, usePseudo) →
+        ∃ (cfg : Cfg) (pc : Pipeline.Config),
+          parseMethod usePseudo m = .ok cfg ∧ toPipelineConfig cfg = some pc ∧
+          ∀ (maps : List C10.DMap) (pin : Pipeline.Input) (e : String),
+            (cfg.needsMap = true →
+              pepMaps inp.fasta inp.pepMapFiles inp.containsDecoys inp.geneLevel inp.useUniprot inp.dig usePseudo = .ok maps) →
+            pin = pipelineInput inp (ingest inp maps cfg) (inp.recs.getD 0 default) →
+            cliRun inp = .error e →
+            e ∈ Pipeline.dataErrors ∨ ¬ Pipeline.Fits1 pc pin ∨
+            (pc.grouping = .rescuedSubset ∧
+              (pin.rescueCutoff = none ∨ ∃ c, pin.rescueCutoff = some c ∧
+                ((∃ e', Pipeline.rescueOut pc pin c = .error e') ∨
+                 ∃ out, Pipeline.rescueOut pc pin c = .ok out ∧ ¬ Pipeline.Fits2 pc pin out))) := by
+  intro m hm inp op ann u hmeth hout hhas ha
+  obtain ⟨cfg, pc, hp, hpc, H⟩ := cli_shipped_method_is_inference_call m hm inp op ann u hmeth hout hhas ha
+  refine ⟨cfg, pc, hp, hpc, ?_⟩
+  intro maps pin e hmaps hpin he
+  obtain ⟨-, herr, -, -⟩ := H maps pin hmaps hpin
+  exact Pipeline.run_error_data_or_misfit pc pin e ((herr e).mp he)
+
+/-! Non-vacuity.  Of the shipped methods some have a rescue step and some do not.  `--methods savitski_no_remap` and
+`--methods picked_protein_group_no_remap` on the Percolator file of `Proofs/Cli.lean: demoRun` (target peptide PEPA of
+protein `A`, decoy peptide PEPB of `REV__B`) satisfy every hypothesis of the two completion theorems — their
+inference calls are `Pipeline.demo_run1` / `Pipeline.demo_run2` (`Pipeline.demo1_hypotheses`,
+`Pipeline.demo2_hypotheses`) — and complete with one table; the same command line on a file whose only peptide is
+shared between two proteins satisfies the hypotheses but not the data condition, and ends with `no_ranked_groups`. -/
+
+example : (Generated.methods.filter (fun m => (pipelineConfigOf false m).map (·.grouping) == some .rescuedSubset)).length = 9 ∧
+    (Generated.methods.filter (fun m => (pipelineConfigOf false m).map (·.grouping) != some .rescuedSubset)).length = 18 := by
+  decide +kernel
+
+private def demoMSav : MethodToml :=
+  { name := "savitski_no_remap", label := some "Savitski", scoreType := some "Perc bestPEP", grouping := some "no",
+    sharedPeptides := some "discard", pickedStrategy := some "picked" }
+
+private def demoMPpgNr : MethodToml :=
+  { name := "picked_protein_group_no_remap", label := some "Picked Protein Group FDR", scoreType := some "Perc bestPEP",
+    grouping := some "rescued_subset", sharedPeptides := some "discard", pickedStrategy := some "picked_group" }
+
+private def demoSingle : CliInput := { demoRun with methods := ["savitski_no_remap"], recs := [demoRec1] }
+private def demoRescue : CliInput := { demoRun with methods := ["picked_protein_group_no_remap"], recs := [demoRec2] }
+
+/-- the single-pass theorem applies to `--methods savitski_no_remap` and yields its table -/
+example : ∃ t, cliRun demoSingle = .ok [t] ∧ t.rows = Pipeline.demoRows (1/2) 1 := by
+  have hm : demoMSav ∈ Generated.methods := by decide +kernel
+  obtain ⟨cfg, pc, hp, hpc, H⟩ := cli_shipped_single_pass_completes_iff demoMSav hm demoSingle
+    { dir := "d", stem := "out", suffix := ".txt" } [] false rfl rfl (by decide +kernel) rfl
+  have hp' : parseMethod false demoMSav = .ok demoCfgA := by decide +kernel
+  rw [hp'] at hp
+  cases hp
+  have hpc' : toPipelineConfig demoCfgA = some Pipeline.demoCfg1 := rfl
+  rw [hpc'] at hpc
+  cases hpc
+  have hpil : ingest demoSingle [] demoCfgA = Pipeline.demoPil := by decide +kernel
+  have hpin : Pipeline.demoInp1 = pipelineInput demoSingle (ingest demoSingle [] demoCfgA) (demoSingle.recs.getD 0 default) := by
+    rw [hpil]; rfl
+  obtain ⟨hg, -, hf, hs, h1, h2⟩ := Pipeline.demo1_hypotheses
+  obtain ⟨-, hok, -⟩ := H [] Pipeline.demoInp1 (by intro h; exact absurd h (by decide +kernel)) hpin hg hf hs
+  obtain ⟨r, hr, -, -, hcli⟩ := hok h1 h2
+  obtain ⟨r', hr', -, -, hrows, -⟩ := Pipeline.demo_run1
+  rw [hr] at hr'
+  cases hr'
+  exact ⟨_, hcli, hrows⟩
+
+/-- the rescue theorem applies to `--methods picked_protein_group_no_remap` and yields its table -/
+example : ∃ t, cliRun demoRescue = .ok [t] ∧ t.rows = Pipeline.demoRows (1/2) 1 ∧ t.run.pass2.isSome = true := by
+  have hm : demoMPpgNr ∈ Generated.methods := by decide +kernel
+  obtain ⟨cfg, pc, hp, hpc, H⟩ := cli_shipped_rescue_completes_iff demoMPpgNr hm demoRescue
+    { dir := "d", stem := "out", suffix := ".txt" } [] false rfl rfl (by decide +kernel) rfl
+  have hp' : parseMethod false demoMPpgNr = .ok demoCfgB := by decide +kernel
+  rw [hp'] at hp
+  cases hp
+  have hpc' : toPipelineConfig demoCfgB = some Pipeline.demoCfg2 := rfl
+  rw [hpc'] at hpc
+  cases hpc
+  have hpil : ingest demoRescue [] demoCfgB = Pipeline.demoPil := by decide +kernel
+  have hpin : Pipeline.demoInp2 = pipelineInput demoRescue (ingest demoRescue [] demoCfgB) (demoRescue.recs.getD 0 default) := by
+    rw [hpil]; rfl
+  obtain ⟨hg, -, hf, hs, c, out, hc, hout, hf2, hs2, h1, h2, h3, h4⟩ := Pipeline.demo2_hypotheses
+  obtain ⟨-, hok, -⟩ := H [] Pipeline.demoInp2 c out (by intro h; exact absurd h (by decide +kernel)) hpin hg hf hs hc
+    hout hf2 hs2
+  obtain ⟨r, hr, -, -, hp2, hcli⟩ := hok h1 h2 h3 h4
+  obtain ⟨r', hr', -, -, hrows, -⟩ := Pipeline.demo_run2
+  rw [hr] at hr'
+  cases hr'
+  exact ⟨_, hcli, hrows, hp2⟩
+
+private def demoSharedRun : CliInput :=
+  { demoSingle with
+    perc := some [[{ raw := { pep := "PEPA", mod := "", score := some (1/1000), prot := ["A", "B"], decoy := false } }]],
+    recs := [{ shuffles := [[], []], scores1 := [-100, -100] }] }
+
+/-- the data condition is not for free: a Percolator file whose only peptide is shared between the ungrouped proteins
+    `A` and `B` satisfies every hypothesis of the single-pass theorem, gives no group any evidence, and the run ends
+    with `no_ranked_groups` -/
+example : cliRun demoSharedRun = .error "no_ranked_groups" := by
+  have hm : demoMSav ∈ Generated.methods := by decide +kernel
+  obtain ⟨cfg, pc, hp, hpc, H⟩ := cli_shipped_single_pass_completes_iff demoMSav hm demoSharedRun
+    { dir := "d", stem := "out", suffix := ".txt" } [] false rfl rfl (by decide +kernel) rfl
+  have hp' : parseMethod false demoMSav = .ok demoCfgA := by decide +kernel
+  rw [hp'] at hp
+  cases hp
+  have hpc' : toPipelineConfig demoCfgA = some Pipeline.demoCfg1 := rfl
+  rw [hpc'] at hpc
+  cases hpc
+  have hpil : ingest demoSharedRun [] demoCfgA = Pipeline.demoInpShared.pil := by decide +kernel
+  have hpin : Pipeline.demoInpShared =
+      pipelineInput demoSharedRun (ingest demoSharedRun [] demoCfgA) (demoSharedRun.recs.getD 0 default) := by
+    rw [hpil]; rfl
+  obtain ⟨-, hf, hs, h1, h2, -⟩ := Pipeline.demo_no_ranked
+  obtain ⟨-, -, herr⟩ := H [] Pipeline.demoInpShared (by intro h; exact absurd h (by decide +kernel)) hpin (by decide) hf hs
+  exact (herr _).mpr (Or.inr ⟨rfl, h1, h2⟩)
 
 end PgFdr.C18
